@@ -185,94 +185,11 @@ theorem no_borders_no_rules (cfg : Cfg) (d : Deco) (w : Nat) (tree : RNode) (ls 
           have s1s := (startBlock_good _ st).2 s1 h2
           exact fin _ (addLines_sane s1 _ s1s (fun _ l hl => by simp at hl; obtain ⟨a, _, rfl⟩ := hl; rfl)) h
 
-theorem domTree_tableOk (dec useDoc : Bool) (agentCss userCss : Option (List Char)) (ci : CharInfo) (depth : Nat) (dom : Node) (tree : RNode)
-    (h : domTree dec useDoc agentCss userCss ci depth dom = .ok tree) : tableOk tree = true := by
-  unfold domTree at h
-  split at h
-  · simp at h
-  · split at h
-    · simp at h
-    · split at h
-      · simp at h
-      · unfold buildTree at h
-        split at h
-        · simp at h
-        · simp at h
-        · split at h
-          · simp at h
-          · rename_i hok
-            injection h with h; subst h
-            simpa using hok
-
-theorem addTo_error (base : List Css.Rule) (css : Option (List Char)) (o : Outcome) (h : addTo base css = .error o) : ∀ ls, o ≠ .lines ls := by
-  unfold addTo at h
-  split at h
-  · simp at h
-  · split at h
-    · simp at h
-    · injection h with h; subst h; intro ls hh; cases hh
-    · injection h with h; subst h; intro ls hh; cases hh
-
-theorem docRulesOf_error (useDoc : Bool) (depth : Nat) (dom : Node) (o : Outcome) (h : docRulesOf useDoc depth dom = .error o) :
-    ∀ ls, o ≠ .lines ls := by
-  unfold docRulesOf at h
-  split at h
-  · simp at h
-  · have key : ∀ (l : List (List Ch)) (acc : Except Outcome (List Css.Rule)), (∀ o', acc = .error o' → ∀ ls, o' ≠ .lines ls) →
-        ∀ o', l.foldl (fun acc t => match acc with
-          | .error o => .error o
-          | .ok rs => match Css.doAddCss (t.map fun c => Char.ofNat c.cp) with
-            | .ok r => .ok (rs ++ r)
-            | .err => .ok rs
-            | .hang => .error (.hang "css parser (document)")) acc = .error o' → ∀ ls, o' ≠ .lines ls := by
-      intro l
-      induction l with
-      | nil => intro acc hacc o' h'; exact hacc o' h'
-      | cons t r ih =>
-        intro acc hacc o' h'
-        simp only [List.foldl_cons] at h'
-        refine ih _ ?_ o' h'
-        intro o'' ho''
-        cases acc with
-        | error e => simp only at ho''; exact hacc _ (by rw [← ho''])
-        | ok rs =>
-          simp only at ho''
-          split at ho''
-          · simp at ho''
-          · simp at ho''
-          · injection ho'' with ho''; subst ho''; intro ls hh; cases hh
-    exact key _ _ (by intro o' h'; simp at h') o h
-
 /-- …and for the whole pipeline: whatever the document and the style sheets, without borders every returned line is a text line -/
 theorem no_borders_no_rules_pipeline (cfg : Cfg) (d : Deco) (w : Nat) (useDoc : Bool) (agentCss userCss : Option (List Char))
     (ci : CharInfo) (depth : Nat) (dom : Node) (ls : List RLine) (hdb : cfg.drawBorders = false)
     (h : renderDom cfg d w useDoc agentCss userCss ci depth dom = .lines ls) : ∀ l ∈ ls, l.isText = true := by
-  rw [renderDom_factor] at h
-  cases hd : domTree cfg.decorate useDoc agentCss userCss ci depth dom with
-  | error o =>
-    rw [hd] at h; simp only at h; subst h
-    exfalso
-    unfold domTree at hd
-    split at hd
-    · rename_i o1 h1; injection hd with hd; subst hd; exact addTo_error _ _ _ h1 ls rfl
-    · split at hd
-      · rename_i o2 h2; injection hd with hd; subst hd; exact addTo_error _ _ _ h2 ls rfl
-      · split at hd
-        · rename_i o3 h3; injection hd with hd; subst hd; exact docRulesOf_error _ _ _ _ h3 ls rfl
-        · unfold buildTree at hd
-          split at hd
-          · simp at hd
-          · simp at hd
-          · split at hd <;> simp at hd
-  | ok tree =>
-    rw [hd] at h
-    simp only at h
-    cases hr : renderTree cfg d w tree with
-    | error e => rw [hr] at h; cases e <;> simp [treeOutcome] at h
-    | ok ls' =>
-      rw [hr] at h
-      simp only [treeOutcome] at h
-      injection h with h; subst h
-      exact no_borders_no_rules cfg d w tree ls' (domTree_tableOk _ _ _ _ _ _ _ tree hd) hdb hr
+  obtain ⟨tree, _, htok, hr⟩ := renderDom_lines cfg d w useDoc agentCss userCss ci depth dom ls h
+  exact no_borders_no_rules cfg d w tree ls htok hdb hr
 
 end H2T.C15
